@@ -61,7 +61,7 @@ func VerifNewListenerWrapper(routes RouteList, timeout time.Duration) *ListenerW
 
 // VerifNewPacketConn builds a virtual UDP connection as servePacket does.
 func VerifNewPacketConn(pc net.PacketConn, addr net.Addr, closeCh chan string) net.Conn {
-	return &packetConn{PacketConn: pc, readCh: make(chan *packet, 5), addr: addr, closeCh: closeCh}
+	return &packetConn{PacketConn: pc, readCh: make(chan *packet, 5), done: make(chan struct{}), addr: addr, closeCh: closeCh}
 }
 
 // VerifPacketConnFeed delivers one datagram to a virtual UDP connection.
